@@ -20,10 +20,11 @@ Definition status_eqb (a b : status) : bool :=
   | _, _ => false end.
 
 Inductive check := CkRun | CkUpToDate | CkError.          (* Dependency.get_status(...).status *)
-Inductive outcome := OOk | OFail | OError | OSaveErr | OInterrupt.
+Inductive outcome := OOk | OFail | OError | OSaveErr | OInterrupt | OFailV.
 (* OOk: actions succeed and save_success works;  OFail: TaskFailed;  OError: TaskError;
    OSaveErr: actions succeed but save_success raises FileNotFoundError -> DependencyError;
-   OInterrupt: KeyboardInterrupt/SystemExit raised inside an action *)
+   OInterrupt: KeyboardInterrupt/SystemExit raised inside an action;
+   OFailV: a first action succeeded and set task.values, a later action failed (TaskFailed) *)
 
 (* one task as TaskControl.__init__ leaves it (wild-cards expanded, implicit task_dep added,
    loader/result_dep/getargs deps appended to task_dep/setup) *)
